@@ -85,6 +85,7 @@ theorem interrupted_at_deadline (s : TS) (d : Nat) (a : Int) (ha : s.armed = som
   | none => rw [ha]; simp [hlong, timerFire, hcc]
   | some c => have := hc c hcc; rw [ha]; simp [this, hlong, timerFire, hcc]
 
+set_option linter.unusedSimpArgs false in
 /-- ... and a sleep that ends before the armed deadline (and before any cancel) is untouched. -/
 theorem early_sleep_unaffected (s : TS) (d : Nat)
     (ha : ∀ a, s.armed = some a → s.now + d < clampT s.now a)
@@ -150,6 +151,12 @@ theorem other_results_untouched (fixed ig : Bool) (d : Int) (s : TS) (r : Res)
     (hf : isCancelFamily r = false) :
     (aexit fixed ig d r s).1 = r ∧ (aexit fixed ig d r s).2.1 = false := by
   simp [aexit, unset, hf]
+
+/-- the relative forms (`timeout_after`, `ignore_after`) are the absolute forms
+(`timeout_at`, `ignore_at`) with the deadline counted from the clock at entry -/
+theorem absolute_relative_agree (fixed ig : Bool) (t : Int) (body : Prog) (s : TS) :
+    run fixed (.block ig true t body) s = run fixed (.block ig false (s.now + t) body) s := by
+  simp [run]
 
 /-! ## Worked instances (non-vacuity; also regression anchors) -/
 
